@@ -323,89 +323,7 @@ fn long_game(p: &Pos, plies: usize, seed: u64) -> Vec<Mv> {
     out
 }
 
-/// A legal game of thousands of plies from the start position, built (not drawn): blocks of at most
-/// 148 plies in which only knights move, along a path that visits no position twice, separated by
-/// single pawn pushes (32 of them exist without captures). So no position occurs twice in the whole
-/// game and no 75 moves pass without a pawn move: the game is legal under the automatic fivefold
-/// and 75-move rules however long it gets. No captures, no checks, kings and rooks never move.
-pub fn very_long_game(target: usize) -> Vec<Mv> {
-    fn quiet_knight_moves(p: &Pos) -> Vec<Mv> {
-        let mut ms: Vec<Mv> = p
-            .legal_moves()
-            .into_iter()
-            .filter(|m| matches!(p.sq[m.from as usize], Some((_, Kind::N))) && p.sq[m.to as usize].is_none())
-            .filter(|m| {
-                let n = p.make(*m);
-                !n.in_check(n.stm)
-            })
-            .collect();
-        ms.sort();
-        ms
-    }
-    /// depth-first search for a path of `len` knight moves through positions not in `seen`
-    fn block(p: &Pos, len: usize, seen: &mut std::collections::HashSet<String>, out: &mut Vec<Mv>, budget: &mut u64) -> bool {
-        if len == 0 {
-            return true;
-        }
-        for m in quiet_knight_moves(p) {
-            if *budget == 0 {
-                return false;
-            }
-            let n = p.make(m);
-            let k = n.fen4();
-            if seen.contains(&k) || quiet_knight_moves(&n).is_empty() {
-                continue;
-            }
-            *budget -= 1;
-            seen.insert(k.clone());
-            out.push(m);
-            if block(&n, len - 1, seen, out, budget) {
-                return true;
-            }
-            out.pop();
-            seen.remove(&k);
-        }
-        false
-    }
-    let mut cur = start_pos("startpos");
-    let mut out: Vec<Mv> = Vec::new();
-    while out.len() < target {
-        let want = 148.min(target - out.len());
-        let mut seen = std::collections::HashSet::new();
-        seen.insert(cur.fen4());
-        let mut path = Vec::new();
-        let mut budget = 200_000u64;
-        if !block(&cur, want, &mut seen, &mut path, &mut budget) {
-            break;
-        }
-        for m in &path {
-            cur = cur.make(*m);
-        }
-        out.extend(path);
-        if out.len() >= target {
-            break;
-        }
-        // one single pawn push by the side to move (no capture, no check)
-        let mut pushes: Vec<Mv> = cur
-            .legal_moves()
-            .into_iter()
-            .filter(|m| matches!(cur.sq[m.from as usize], Some((_, Kind::P))) && (m.to as i32 - m.from as i32).abs() == 8 && m.promo.is_none())
-            .filter(|m| {
-                let n = cur.make(*m);
-                !n.in_check(n.stm) && !quiet_knight_moves(&n).is_empty()
-            })
-            .collect();
-        pushes.sort();
-        match pushes.first() {
-            Some(m) => {
-                cur = cur.make(*m);
-                out.push(*m);
-            }
-            None => break,
-        }
-    }
-    out
-}
+pub use crate::longgame::very_long_game;
 
 pub const VERY_LONG_TARGET: usize = 4800;
 
